@@ -268,4 +268,18 @@ def monitorAfter [DecidableEq S] (P : Params S) (seed : S) (bodies : List Body) 
   | none => m
   | some b => provideCommitment m (numberOf P bodies.length) b.htlcs
 
+/-! ### second-stage transactions with other inputs (anchor channels: fee inputs anywhere, several HTLC inputs)
+
+    `check_spend_counterparty_htlc` looks at EVERY input: input `i` that spends the commitment with a 5-element witness makes
+    output `i` a justice claim.  A second-stage transaction is given input by input: `some v` = such an input spending
+    commitment output `v`, `none` = any other input. -/
+
+def secondStageClaimsAt (k : Nat) (inputs : List (Option Nat)) : List Outpoint :=
+  ((List.range inputs.length).filter fun i => match inputs[i]? with | some (some _) => true | _ => false).map (.second k)
+
+/-- all second-stage transactions, numbered from `k` -/
+def allSecondClaimsAt : Nat → List (List (Option Nat)) → List Outpoint
+  | _, [] => []
+  | k, t :: rest => secondStageClaimsAt k t ++ allSecondClaimsAt (k + 1) rest
+
 end Ldk.Punish
